@@ -259,6 +259,11 @@ def fault_scenarios(run, menu_name, theorems, only_locks=False):
                           "failing_operation": res["fired"], "point": "%d:%d:%d" % (s["id"], k, 1 if pers else 0)}
                 out = res["outcome"]
                 st = res["state"]
+                if out == "HANG":
+                    run.violation(classify_fault_violation(call, res["fired"], pers, "does-not-return"),
+                                  "[%s] after [%s] with %s failure at site %d %s does not return (identifiers held: %s)" % (
+                                      s["call"], s["setup"], "persistent" if pers else "one-off", k, res["fired"], res["locks"]), replay)
+                    continue
                 if res["locks"]:
                     run.violation(classify_fault_violation(call, res["fired"], pers, "identifier-left-locked"),
                                   "[%s] with %s failure at site %d %s returned %s and left identifiers locked: %s" % (s["call"], "persistent" if pers else "one-off", k, res["fired"], out, res["locks"]), replay)
@@ -298,20 +303,20 @@ def fault_scenarios(run, menu_name, theorems, only_locks=False):
                                           s["call"], s["setup"], "persistent" if pers else "one-off", errno.errorcode[e], k, res["fired"], out, ip, sym, perm(st)), replay)
                     elif call["op"] in ("so", "tag") and st.get("P%d" % ip) is None:
                         # unbound: can be stored again at once (the failure does not persist beyond the call)
-                        r2 = im.call(dict(call))
+                        r2 = cf.guarded_call(im, dict(call))
                         ok2 = r2.startswith("ok:") or (call["op"] == "tag" and r2 == "ok:unit")
                         if not ok2:
                             run.violation(classify_fault_violation(call, res["fired"], pers, "retry-rejected"),
                                           "[%s] failed at site %d %s with %s; the retry is rejected with %s" % (s["call"], k, res["fired"], out, r2), replay)
                     if call["op"] in ("del", "dm"):
-                        r2 = im.call({"op": "del", "p": ip})
+                        r2 = cf.guarded_call(im, {"op": "del", "p": ip})
                         if r2 not in ("ok:unit", "exn:PidRefsDoesNotExist"):
                             run.violation(classify_fault_violation(call, res["fired"], pers, "delete-after-failure-fails"),
                                           "[%s] failed at site %d %s with %s; a later delete_object(pid %d) gives %s" % (s["call"], k, res["fired"], out, ip, r2), replay)
                 # every other pid's data is untouched
                 for q in others:
-                    o = im.call({"op": "ro", "p": q})
-                    if o != objs0[q] or any(im.call({"op": "rm", "p": q, "f": f}) != metas0[(q, f)] for f in fmts):
+                    o = cf.guarded_call(im, {"op": "ro", "p": q})
+                    if o != objs0[q] or any(cf.guarded_call(im, {"op": "rm", "p": q, "f": f}) != metas0[(q, f)] for f in fmts):
                         run.violation(classify_fault_violation(call, res["fired"], pers, "other-pid-disturbed"),
                                       "[%s] with a failure at site %d %s changed what pid %d serves (%s -> %s)" % (s["call"], k, res["fired"], q, objs0[q], o), replay)
             finally:
@@ -394,7 +399,7 @@ def c09(run):
         u = Universe()
         seq.prepare(u, setup + [call])
         trace_case(run, u, setup, call, "P-trace", ["integrity_invariant", "api_never_writes_permanent_in_place", "api_publishes_from_own_temp"])
-        snaps, final, r, ops = cf.crash_states(u, setup, call)
+        snaps, final, r, ops = cf.crash_states(u, setup, call, also=("tclose",))
         supplied = {b""}
         for c in setup + [call]:
             if c["op"] == "sm":
